@@ -420,3 +420,10 @@ def hierarchy_order(ctx):
     from . import c03, c13
     c03.dict_remove_shifts(ctx)
     c13.restricted(ctx, r'(dimension::Dimension|AccessStructure)$', [c13.agree, c13.order])
+
+
+@rule('C02', 'rename-keeps-rank')
+def rename_keeps_rank(ctx):
+    """Renaming keeps an attribute at its rank (and with its identifier): otherwise a lower attribute becomes a higher one."""
+    from . import c03
+    c03.rename_keeps_id(ctx)
